@@ -949,7 +949,15 @@ class Assembler:
             first = ab.get('first', '')
             if spec.get('journal_param'):
                 first = first.replace('&mut verif_journal', '&mut *verif_journal')
-            ed.replace(s.t[ka][1], s.t[kb][2], ab['as'] + '(' + (first + ', ' if first else ''))
+            recv = ''
+            if '.' in ab['call']:
+                # a method call `RECV.m(args)`: the receiver expression is handed over as an argument of its own
+                recv = ab['call'][:ab['call'].rindex('.')].strip() + ', '
+            closes_now = s.is_p(kb + 1, ')')
+            lead = (first + ', ' if first else '') + recv
+            if closes_now:
+                lead = lead.rstrip(', ')
+            ed.replace(s.t[ka][1], s.t[kb][2], ab['as'] + '(' + lead)
             self.assumed.append({'function': '%s :: callee `%s` replaced by %s' % (fnname, ab['call'], ab['as']),
                                  'sha256': hashlib.sha256(ab['call'].encode()).hexdigest(), 'proved_in': None})
             self.fired.add('15c:replace-callee')
